@@ -258,7 +258,9 @@ def explore(harness, root_prefix=(), max_paths=200000, seed_only=None, deadline=
                 if r == z3.unsat:
                     st["discharged"] += 1
                     sstride = getattr(harness, "second_stride", 0)
-                    if sstride and not isinstance(goal, bool) and st["discharged"] % sstride == 1 and st["second"]["checked"] < getattr(harness, "second_cap", 40):
+                    if sstride and not isinstance(goal, bool):
+                        st["second"]["seen"] = st["second"].get("seen", 0) + 1
+                    if sstride and not isinstance(goal, bool) and st["second"]["seen"] % sstride == 1 and st["second"]["checked"] < getattr(harness, "second_cap", 40):
                         st["second"]["checked"] += 1
                         for name, v in second_opinion(ctx, goal).items():
                             key = name + ":" + ("agree" if v == "unsat" else "DISAGREE" if v == "sat" else v)
